@@ -180,6 +180,15 @@ class Run:
                         self.findings.append(("foreign-exception:UserError", f"unexpected UserError [{ctxt}]"))
                 elif not isinstance(out, PycommError):
                     self.findings.append((f"foreign-exception:{op}:{type(out).__name__}", f"{op}() raised {type(out).__name__}: {out!s:.120} - not a library exception [{ctxt}]"))
+            if op == "open" and st == "ok" and out and self.kind in ("logix", "micro") and self.init_tags and fired_now:
+                # a failure may not vanish: an open() during which the transport failed either raises / returns False, or it did
+                # everything an open() does - then the driver holds the controller's tag list
+                want_names = sorted(t_.full_name for t_ in self.prj.user_tags())
+                got_names = sorted(self.drv.tags or {})
+                if got_names != want_names:
+                    self.findings.append(("open-reports-success-with-incomplete-tag-list",
+                                          f"open() returned {out!r} although the transport failed during it, and the driver holds {len(got_names)} of the controller's {len(want_names)} tags "
+                                          f"(missing {sorted(set(want_names) - set(got_names))[:4]}) [{ctxt}]"))
             if op in ("with_exc", "with_commerr") and st == "ok":
                 self.findings.append(("with-block-swallows-exception", f"an exception raised inside the with block did not propagate [{ctxt}]"))
             if fired_now and self.close_calls > closes_before:
